@@ -225,8 +225,7 @@ def describes (D : Def) : Nat → Schemas → Ty → Def → Bool
   | 0, _, _, _ => true
   | n + 1, ss, t, node =>
     match t with
-    | .scalar kind v cs m =>
-      kind != "any" && jsBeqKvs (core node) (emitScalar kind v cs (hasHint m dtHint))
+    | .scalar kind v cs m => jsBeqKvs (core node) (emitScalar kind v cs (hasHint m dtHint))
     | .array e _ =>
       (match isArrayNode (core node) with
        | some en => describes D n ss e en
@@ -260,8 +259,7 @@ def describes (D : Def) : Nat → Schemas → Ty → Def → Bool
              (match isEnumNode nd with
               | some xs => jsBeqList xs (enumValues vs)
               | none => false)
-           | .scalar kind v cs om =>
-             kind != "any" && jsBeqKvs nd (emitScalar kind v cs (hasHint om dtHint))
+           | .scalar kind v cs om => jsBeqKvs nd (emitScalar kind v cs (hasHint om dtHint))
            | .array .. | .map .. => describes D n ss o.ty nd
            | .ref p n' om => describes D n ss (.ref p n' om) nd
            | _ => false)
